@@ -69,6 +69,13 @@ func c09Run(c *Ctx) {
 		// a command that ran in an earlier parse must not make a later, incomplete command line run something
 		hc := c09Cfg()
 		hc.PRequired, hc.PPosReq, hc.PPos, hc.PSubOptional, hc.PCmds, hc.MaxDepth = 0, 0, 0, 25, 90, 3
+		if c.K%4 == 3 {
+			// a command must not run on a value that is no longer allowed (nor be refused one that is allowed now)
+			hcc := histChoiceCfg()
+			hcc.PExec = 80
+			histCase(c, GenDecl(c.Sub("dh"), hcc), []string{"choices-in-place", "choices-replaced"}, []string{"parse"})
+			return
+		}
 		histCase(c, GenDecl(c.Sub("dh"), hc), []string{"shorter-chain", "shorter-chain", "none"}, []string{"parse"})
 		return
 	}
@@ -157,6 +164,23 @@ func c09Run(c *Ctx) {
 	if b.Err != nil {
 		c.Violate("setup-error", "generated declaration rejected: %v", b.Err)
 		return
+	}
+	if !withHandler && c.K%5 == 2 && (fault == "none" || fault == "exec-error") {
+		// a command that dispatches another line through the same parser (a shortcut that expands to another
+		// command line, a batch command): what the outer call returns is still the outer line's
+		busy := false
+		for _, cm := range d.Cmds[1:] {
+			if cm.Node != nil {
+				cm.Node.after = func() {
+					if busy {
+						return
+					}
+					busy = true
+					safely(func() { b.P.ParseArgs([]string{"zz-inner-word-1", "--", "zz-inner-word-2"}) })
+					busy = false
+				}
+			}
+		}
 	}
 	var handlerSentinel error = &sentinelErr{-1}
 	handlerReturnsErr := withHandler && r.Chance(1, 4)
